@@ -90,6 +90,8 @@ class C11(PoolCheck):
                     'src': {'ch': ('raw', 'buffered', 'textio', 'duck')[(index // 4) % 4], 'plan': None,
                             'faults': fault, 'pclass': 'whole'}, 'exhaustive': True}
         r = rng.random()
+        if r < 0.04:
+            return self.gen_nested(rng)
         if r < 0.62:
             return self.gen_fault(rng)
         if r < 0.80:
@@ -102,6 +104,19 @@ class C11(PoolCheck):
         key = rng.choice([k for k in self.keys if not k.startswith('recur')])
         e = self.entries[key]
         di = rng.randrange(len(e.docs))
+        if rng.random() < 0.05:
+            # a document larger than the 64 KiB head buffer of the rewindable reader, on a non-seekable defused
+            # stream, with the fault beyond the buffered head
+            key = rng.choice([k for k in self.keys if k.startswith('big/')])
+            e = self.entries[key]
+            di = max(range(len(e.docs)), key=lambda i: len(e.docs[i].data))
+            n = len(e.docs[di].data)
+            kind = rng.choice(['eio', 'eio', 'eof', 'close'])
+            return {'kind': 'fault', 'entry': key, 'doc': di, 'api': rng.choice(APIS), 'lazy': rng.choice([0, 0, 1]),
+                    'defuse': rng.choice(['always', 'nonlocal']),
+                    'src': {'ch': rng.choice(['raw', 'buffered']), 'plan': {'sizes': [], 'rest': rng.choice([None, 16384, 40000])},
+                            'pclass': 'big-beyond-head', 'faults': {kind: rng.randrange(min(65536, n - 1), n + 1)},
+                            'seekable': False}}
         data = e.docs[di].data
         n = len(data)
         lt, gt = simio.markup_positions(data)
@@ -124,9 +139,92 @@ class C11(PoolCheck):
         if ch == 'path':
             faults = {k: v for k, v in faults.items() if k in ('eof', 'flip')} or {'eof': offset()}
         plan, pclass = simio.gen_plan(rng, data)
-        return {'kind': 'fault', 'entry': key, 'doc': di, 'api': rng.choice(APIS), 'lazy': rng.choice([0, 0, 1, 1, 2]),
+        case = {'kind': 'fault', 'entry': key, 'doc': di, 'api': rng.choice(APIS), 'lazy': rng.choice([0, 0, 1, 1, 2]),
                 'src': {'ch': ch, 'plan': plan, 'pclass': pclass, 'faults': faults,
                         'seekable': rng.random() < 0.9}}
+        if rng.random() < 0.3:
+            # the defusing pre-parse reads the stream first (wrapping non-seekable ones in a rewindable reader)
+            case['defuse'] = rng.choice(['always', 'nonlocal'])
+            if ch in ('raw', 'buffered') and rng.random() < 0.6:
+                case['src']['seekable'] = False
+            if 'eio' in faults and rng.random() < 0.4:
+                case['src']['faults']['eio'] = n          # raises where EOF would be reported
+        return case
+
+    def gen_nested(self, rng):
+        key = rng.choice([k for k in self.keys if not k.startswith(('recur', 'big'))])
+        e = self.entries[key]
+        return {'kind': 'nested', 'entry': key, 'doc': rng.randrange(len(e.docs)), 'at': rng.randrange(0, 6),
+                'inner': rng.choice(['iter', 'iter_errors', 'iter_depth', 'is_valid']),
+                'outer': rng.choice(['iter_errors', 'iter_depth', 'decode_lax']), 'thin': rng.random() < 0.5}
+
+    def run_nested(self, case):
+        """A second iteration of a lazy resource is attempted while one is running: it is refused with the library's
+        resource error, and the running one completes as if nothing had happened."""
+        import xmlschema
+        e = self.entries[case['entry']]
+        doc = e.docs[case['doc']]
+        res = xmlschema.XMLResource(doc.data, lazy=True, thin_lazy=case['thin'])
+        log = {'inner': None}
+        n = [0]
+
+        def inner():
+            try:
+                if case['inner'] == 'iter':
+                    next(res.iter(), None)
+                elif case['inner'] == 'iter_depth':
+                    next(res.iter_depth(), None)
+                elif case['inner'] == 'is_valid':
+                    e.schema.is_valid(res)
+                else:
+                    next(e.schema.iter_errors(res), None)
+                log['inner'] = {'k': 'ok'}
+            except BaseException as exc:
+                log['inner'] = canon.canon_exc(exc)
+
+        def hook(elem, xsd_element):
+            n[0] += 1
+            if n[0] == case['at'] + 1:
+                inner()
+            return False
+        keep = {}
+        try:
+            if case['outer'] == 'iter_depth':
+                out = []
+                for k, el in enumerate(res.iter_depth(mode=1)):
+                    if k == case['at']:
+                        inner()
+                    out.append(el.tag)
+                outer = {'k': 'ok', 'v': len(out)}
+            elif case['outer'] == 'decode_lax':
+                data, errs = e.schema.decode(res, validation='lax', validation_hook=hook)
+                outer = {'k': 'ok', 'v': len(errs)}
+            else:
+                outer = {'k': 'ok', 'v': ops.errors_canon(list(e.schema.iter_errors(res, validation_hook=hook)), True)}
+        except BaseException as exc:
+            if type(exc).__name__ == 'CaseTimeout':
+                raise
+            keep['exc'] = exc
+            outer = canon.canon_exc(exc)
+        outer, inner_res = jcopy(outer), jcopy(log['inner'])
+        violations = []
+        for which, r in (('outer', outer), ('inner', inner_res)):
+            if r and r['k'] == 'raise' and not r.get('lib'):
+                violations.append({'signature': {'clause': 'foreign-exception', 'cls': r['cls'], 'kind': 'nested',
+                                                 'which': which, 'msg': _tmpl(r.get('msg', ''))},
+                                   'detail': {'case': case, 'doc': doc.name, 'outer': short(outer), 'inner': short(inner_res)}})
+        if inner_res and inner_res['k'] == 'ok' and case['inner'] != 'x':
+            violations.append({'signature': {'clause': 'nested-iteration-admitted', 'kind': 'nested', 'inner': case['inner']},
+                               'detail': {'case': case, 'doc': doc.name}})
+        if outer['k'] == 'ok' and case['outer'] == 'iter_errors' and inner_res is not None:
+            ref = self.ref(case['entry'], case['doc'], {'api': 'iter_errors'})
+            if ref['k'] == 'ok' and [x[:2] for x in outer['v']] != [x[:2] for x in ref['v']] and \
+                    sorted(x[1] for x in outer['v']) != sorted(x[1] for x in ref['v']):
+                pass    # lazy/eager differences are C06's business; only the exception classes are judged here
+        counters = {'nested_cases': 1, 'nested_inner_' + (inner_res or {}).get('cls', str(inner_res and inner_res['k'])): 1}
+        return {'violations': violations, 'skeleton': ['nested', e.family.name, case['outer'], case['inner'], case['at'], case['thin']],
+                'nontrivial': inner_res is not None, 'counters': counters, 'digest': core.stable_hash([outer, inner_res]),
+                'sample': {'case': case, 'inner': inner_res, 'outer_kind': outer['k']}}
 
     def gen_limit(self, rng):
         which = rng.choice(['depth', 'depth', 'elements'])
@@ -242,12 +340,13 @@ class C11(PoolCheck):
         return data, changed
 
     # ------------------------------------------------------------------
-    def call(self, schema, source, api, lazy, keep):
+    def call(self, schema, source, api, lazy, keep, defuse=None):
         """Returns canonical result; exception object kept for identity checks."""
         import xmlschema
         try:
-            if lazy or api == 'resource':
-                source = xmlschema.XMLResource(source, lazy=(True if lazy == 1 else lazy) if lazy else False)
+            if lazy or api == 'resource' or defuse:
+                source = xmlschema.XMLResource(source, lazy=(True if lazy == 1 else lazy) if lazy else False,
+                                               **({'defuse': defuse} if defuse else {}))
                 keep['resource'] = source
             if api == 'resource':
                 return {'k': 'ok', 'v': source.root.tag}
@@ -280,6 +379,8 @@ class C11(PoolCheck):
         kind = case['kind']
         if kind == 'fault':
             return self.run_fault(case)
+        if kind == 'nested':
+            return self.run_nested(case)
         if kind == 'limit':
             return self.run_limit(case)
         if kind == 'stack':
@@ -295,8 +396,8 @@ class C11(PoolCheck):
         injected = keep.get('injected')
         if injected is not None and (exc is injected or _chained(exc, injected)):
             return None
-        if fired.get('close') and res['cls'] == 'ValueError' and 'closed' in res.get('msg', ''):
-            return None   # the stream's own closed-file error: what a real closed file raises
+        if fired.get('close') and res['cls'] in ('ValueError', 'XMLSchemaValueError') and 'closed' in res.get('msg', ''):
+            return None   # the stream's own closed-file error (what a real closed file raises), possibly re-classed
         if not res.get('lib'):
             return {'clause': 'foreign-exception', 'cls': res['cls'], 'msg': _tmpl(res.get('msg', ''))}
         if lax and api in LAX_APIS and res['cls'] not in RESOURCE_ERRORS:
@@ -328,7 +429,7 @@ class C11(PoolCheck):
                 fired = {k: 1 for k in faults}
             else:
                 source, core_ = ops.make_source(env, data, src)
-            res = self.call(e.schema, source, api, lazy, keep)
+            res = self.call(e.schema, source, api, lazy, keep, case.get('defuse'))
             if core_ is not None:
                 keep['injected'] = core_.injected
                 fired = dict(core_.fired)
@@ -395,7 +496,9 @@ class C11(PoolCheck):
         n = max(1, len(data))
         off = [faults[k] if not isinstance(faults[k], list) else faults[k][0] for k in faults if k != 'seekfail']
         offclass = sorted({simio.cut_classes(data, [o])[0] if simio.cut_classes(data, [o]) else 'edge' for o in off})
-        skeleton = [e.family.name, src['ch'], api, lazy, sorted(faults), offclass,
+        if case.get('defuse'):
+            counters['defused_fault_cases'] = 1
+        skeleton = [e.family.name, src['ch'], api, lazy, sorted(faults), offclass, case.get('defuse'), src.get('seekable', True),
                     off if case.get('exhaustive') else [o * 10 // n for o in off], doc.name if case.get('exhaustive') else doc.kind]
         return {'violations': violations, 'skeleton': skeleton, 'nontrivial': bool(fired_any),
                 'counters': counters, 'digest': core.stable_hash([res, res2, retry]),
